@@ -1228,7 +1228,12 @@ def exec_set(case, ns0):
         facts["dumped"] = parsed
     fx = file_effects(reg, target, tb, tm, bakb) if target else []
     facts.update(status=status, target=target, before=tb, stdout=out, fx=fx)
-    return req, run_sx(status, lines, fx), facts
+    obs = run_sx(status, lines, fx)
+    if "unparsable" in obs:
+        # the dump oracle produced a text that does not load again: the model (documents as data)
+        # has nothing to say; the judge reports the run
+        req = "(cli-outside-model %s)" % obs
+    return req, obs, facts
 
 
 def judge_set(case, f):
@@ -1635,7 +1640,18 @@ def _is_shared_nodes_finding(case, obs):
     return case["tool"] == "merge" and bool(facts.get("aliasing"))
 
 
-FINDING_PREDS = {"differ_vs_data_equality": _is_library_diff_finding,
+def _is_float_format_finding(case, obs):
+    """yaml-set --format float with a value that has no '.': the library writes `!!float '9'`,
+    which ruamel refuses to load again (ValueError in construct_yaml_float)."""
+    if case["tool"] != "set" or "(write unparsable)" not in obs[0]:
+        return False
+    av = case["argv"]
+    return any(a == "float" and i > 0 and av[i - 1] in ("-F", "--format") for i, a in enumerate(av)) or \
+        "--format=float" in av
+
+
+FINDING_PREDS = {"set_float_format_unloadable": _is_float_format_finding,
+                 "differ_vs_data_equality": _is_library_diff_finding,
                  "matrix_merge_shared_nodes": _is_shared_nodes_finding}
 
 from c16_gen import chunks, corpus_chunks  # noqa: E402,F401
